@@ -23,7 +23,8 @@ EXPLANATION = (
     "read from caller-supplied files and iterated by row are forced to rank (ndmin=2 / atleast_1d), one-record files "
     "included. NOT decided: values decoded from particular records, sub-second resolution, NDK fixed-width offsets "
     "beyond the roles of the hypocentre fields.")
-CLAUSES = {'D1': 'dispatch', 'D2': 'slot typing', 'D3': 'index and argument kinds', 'D4': 'roll-over and offsets', 'D5': 'array rank'}
+CLAUSES = {'D1': 'dispatch', 'D2': 'slot typing', 'D3': 'index and argument kinds', 'D4': 'roll-over and offsets', 'D5': 'array rank',
+           'D6': 'record splitting'}
 TRUSTED = ['CPython ast', 'external format tables (ZMAP, HORUS, JMA, CSEP CSV, NDK) frozen in the checker', 'C15 for the epoch conversions']
 R = 'csep.utils.readers.'
 ROOTS = ['csep.load_catalog', R + 'csep_ascii', R + 'zmap_ascii', R + 'jma_csv', R + 'ingv_horus', R + 'ndk', R + 'ingv_emrcmt',
@@ -143,6 +144,12 @@ def rule_slots(ck):
             if slot == 'id':
                 oo.ok('identifier slot')
                 continue
+            # a record's values come from that record alone: nothing carried over from the records before it
+            oc = ck.ob('C19-D2.independent.%s' % slot, f, '%s: %s' % (name, u(e)), e)
+            carried = sorted({const_value(x.args[0]) for x in ast.walk(ee) if is_marker(x, '__loop__') and x.args})
+            (oc.fail('the %s of a record depends on `%s` as left by the previous records (the variable is not re-initialised for each '
+                     'record): a carry or correction applied to one record leaks into every later one' % (slot, ', '.join(map(str, carried))))
+             if carried else oc.ok('no loop-carried value'))
             if slot == 'time':
                 txt = u(ee)
                 ok = ('datetime_to_utc_epoch(' in txt) or ('strptime_to_utc_epoch(' in txt) or ('builtins.round(1000.0 * ' in txt and '.timestamp()' in txt)
@@ -255,6 +262,49 @@ def rule_kinds(ck):
             (o.fail('datetime() receives `%s` straight from the numeric table (a float): TypeError for every record; wrap in int()' % u(bad[0])) if bad else o.ok('int(...) arguments'))
 
 
+def rule_records(ck):
+    """every line of an NDK text - the last one with or without a line terminator - reaches the five-line grouping"""
+    P = ck.prog
+    ck.clause('D6')
+    f = P.func(R + 'ndk.<locals>.lines_iter')
+    o = ck.ob('C19-D6.lines', f, 'NDK text split into lines without losing the last one', f.node)
+    ys = [n for n in all_nodes(f) if isinstance(n, (ast.Yield, ast.YieldFrom))]
+    if ys:
+        in_lp = [y for y in ys if in_loop(y, f.node) is not None]
+        tail = [y for y in ys if in_loop(y, f.node) is None]
+        def open_tail(y):
+            v = y.value
+            return isinstance(v, ast.Subscript) and isinstance(v.slice, ast.Slice) and v.slice.upper is None and v.slice.step is None
+        if not in_lp:
+            o.fail('no line is yielded from the scanning loop')
+        elif not any(open_tail(y) for y in tail):
+            o.fail('after the last line terminator nothing more is yielded: the final line of a text that does not end in a newline is '
+                   'lost, so the last record has four lines and is skipped')
+        else:
+            lp = in_loop(in_lp[0], f.node)
+            after = [y for y in tail if open_tail(y) and y.lineno > lp.lineno]
+            (o.ok('terminated lines from the loop, the unterminated remainder after it') if after else
+             o.fail('the remainder of the text is not yielded after the loop'))
+    else:
+        r = [x for x in returns(f) if x.value is not None]
+        if len(r) != 1:
+            o.unknown('lines_iter neither yields nor returns one iterator')
+        else:
+            v = r[0].value
+            while isinstance(v, ast.Call) and isinstance(v.func, ast.Name) and v.func.id in ('iter', 'list', 'tuple') and v.args:
+                v = v.args[0]
+            sl = [x for x in ast.walk(v) if isinstance(x, ast.Subscript) and isinstance(x.slice, ast.Slice)]
+            base_ok = isinstance(v, ast.Call) and isinstance(v.func, ast.Attribute) and (
+                v.func.attr == 'splitlines' or (v.func.attr == 'split' and v.args and const_value(v.args[0]) == '\n'))
+            if sl:
+                o.fail('the list of lines is sliced (`%s`): the last line of a text that does not end in a newline is dropped, so the last '
+                       'record has four lines and is skipped' % u(sl[0])[:60])
+            elif base_ok:
+                o.ok('%s of the whole text' % v.func.attr)
+            else:
+                o.unknown('unrecognised way of splitting the text into lines: `%s`' % u(v)[:80])
+
+
 def rule_rollover(ck):
     P = ck.prog
     ck.clause('D4')
@@ -356,4 +406,4 @@ def rule_rank(ck):
             (o.ok() if lp is not None and not g else o.fail('the event is not appended once per record (%s)' % ('outside the record loop' if lp is None else 'conditional on `%s`' % u(g[0][0]))))
 
 
-RULES = [rule_dispatch, rule_slots, rule_kinds, rule_rollover, rule_rank]
+RULES = [rule_dispatch, rule_slots, rule_kinds, rule_rollover, rule_rank, rule_records]
